@@ -172,8 +172,55 @@ func c18Eval(text string, datum *univ.Node, l []optSpec) (evalObs, bool, string)
 	return o1, true, ""
 }
 
+// c18HookFixed: a hook's replacement value is what the operators see - also
+// for scalar elements reached through quantifier bindings.
+var c18HookData = univ.IfaceMap(
+	"l", univ.IfaceSlice(univ.Str("secret"), univ.Str("x")),
+	"ls", univ.Slice(univ.SliceOf(univ.TString), univ.Str("y"), univ.Str("secret")),
+	"m", univ.IfaceMap("k", univ.Str("secret"), "j", univ.Str("x")),
+	"s", univ.Str("secret"),
+	"w", univ.IfaceSlice(univ.Struct(univ.StructOf(univ.Field{Name: "Wrapped", Type: univ.TInt}), univ.Int(7)), univ.Int(8)),
+)
+
+var c18HookCases = []struct {
+	hook, expr, want string
+}{
+	{"const", `any l as x { x == "*****" }`, "T"}, {"const", `any l as x { x == "secret" }`, "F"}, {"const", `all l as i, x { x != "secret" }`, "T"}, {"const", `any ls as _, x { x == "*****" }`, "T"},
+	{"const", `any m as k, v { v == "*****" }`, "T"}, {"const", `any m as _, v { v == "secret" }`, "F"}, {"const", `s == "*****"`, "T"}, {"const", `"*****" in l`, "F"}, {"const", `all ls as x { x matches "^(y|\\*+)$" }`, "T"},
+	{"unwrap", `any w as x { x == 7 }`, "T"}, {"unwrap", `all w as x { x != 9 }`, "T"}, {"unwrap", `w.0 == 7`, "T"}, {"identity", `any l as x { x == "secret" }`, "T"}, {"nil", `any l as x { x == "secret" }`, "T"},
+}
+
+func c18HookFixed(c *mon.Ctx, idx int) {
+	cs := c18HookCases[(idx/10)%len(c18HookCases)]
+	o, ok, cerr := c18Eval(cs.expr, c18HookData, []optSpec{{kind: "hook", hook: cs.hook}})
+	c.Evals(1)
+	if !ok {
+		c.Violation("C18 fixed-hook-case-rejected", "a fixed hook expression was rejected", map[string]any{"expression": cs.expr, "error": cerr})
+		return
+	}
+	var eff refsem.Options
+	if cs.hook != "nil" {
+		eff.Hook = hookNames[cs.hook]
+	}
+	if v, err, _, _ := parsePublic(cs.expr); err == nil {
+		if tree, terr := treeOf(v); terr == nil {
+			if a := refsem.Eval(tree, c18HookData, &eff); a.Unspec == "" && !a.Has(cs.want) {
+				c.Violation("C18 harness fixed-hook-case-expectation", "harness error: the hand-written expectation disagrees with the reference", map[string]any{"expression": cs.expr, "want": cs.want, "reference": a.String()})
+				return
+			}
+		}
+	}
+	if o.Class3() != cs.want {
+		c.Violation(fmt.Sprintf("C18 hook-value-not-seen hook=%s got=%s want=%s", cs.hook, o.Class3(), cs.want), "the operators did not see the hook's replacement value", map[string]any{"expression": cs.expr, "hook": cs.hook, "observed": o.String(), "expected": cs.want})
+	}
+	c.Count("fixed_hook_cases")
+}
+
 func c18Run(c *mon.Ctx, idx int) {
 	r := c.RNG(idx)
+	if idx%10 == 0 {
+		c18HookFixed(c, idx)
+	}
 	doc := univ.GenObj(r, 3, true)
 	node := univ.Represent(rand.New(rand.NewSource(r.Int63())), doc, univ.Policy{Mode: idx % 5, Hidden: true, HiddenSeed: 3})
 	node = decorate(r, node, 0)
@@ -390,7 +437,7 @@ func init() {
 		NumCases:    func(tier string) int { return tierN(tier, 5000, 250000) },
 		Run:         c18Run,
 		Required: func(tier string) []string {
-			return []string{"rel:permutation", "rel:last-wins", "rel:insufficient-budget-refused", "rel:nil-hook-clears", "rel:caller-slice-not-aliased", "rel:neutral-identity-hook", "rel:neutral-nil-hook", "rel:neutral-tag-bexpr", "rel:neutral-budget-0", "rel:neutral-budget-above-steps", "rel:neutral-budget-equal-steps",
+			return []string{"fixed_hook_cases", "rel:permutation", "rel:last-wins", "rel:insufficient-budget-refused", "rel:nil-hook-clears", "rel:caller-slice-not-aliased", "rel:neutral-identity-hook", "rel:neutral-nil-hook", "rel:neutral-tag-bexpr", "rel:neutral-budget-0", "rel:neutral-budget-above-steps", "rel:neutral-budget-equal-steps",
 				"rel:neutral-unknown-when-all-resolve", "outcome:T", "outcome:F", "outcome:E", "hook_changed_outcome:props.hookUnwrap", "hook_changed_outcome:props.hookConst", "tag_changed_outcome", "unknown_changed_outcome",
 				"options_in_list:0", "options_in_list:3", "options_in_list:4"}
 		},
